@@ -207,7 +207,9 @@ def gen_spec(rs, p=None):
                     v = 0.0
                 else:
                     v = ntyp * rs.loguniform(0.1, 3.0)
-                if p["integer_state"]:
+                if p["integer_state"] == "half":
+                    v = float(int(v)) + (0.5 if rs.chance(0.6) else 0.0)      # whole and exactly-half amounts mixed
+                elif p["integer_state"]:
                     v = float(int(v + 0.5))
                 st.append(v)
         spec["state"] = st
@@ -705,6 +707,8 @@ def sibling_spec(rs, spec, p=None, nr_delta=0):
             s["space"]["bc"] = bc
     if s.get("state") is not None:
         s["state"] = [v * rs.loguniform(0.5, 2.0) for v in s["state"]]
-        if p["integer_state"]:
+        if p["integer_state"] == "half":
+            s["state"] = [float(int(v)) + (0.5 if rs.chance(0.6) else 0.0) for v in s["state"]]
+        elif p["integer_state"]:
             s["state"] = [float(int(v + 0.5)) for v in s["state"]]
     return s
